@@ -86,7 +86,6 @@ class Batcher(object):
 
 # -------------------------------------------------------------------- reread
 
-KNOWN_EVORDER = 'C15-events-order'
 KNOWN_DUP = 'C15-duplicate-group-name'
 
 
@@ -100,7 +99,7 @@ class Reread(object):
         self.base = c15_real.base_text(wd)
         self.rr = Batcher('rr', 'list gconf * list gconf * (list bytes * list bytes * list bytes)', 'check_reread', 150)
         self.ne = Batcher('ne', 'gconf * gconf * bool * bool', 'check_ne', 400)
-        self.known = {KNOWN_EVORDER: 0, KNOWN_DUP: 0}
+        self.known = {KNOWN_DUP: 0}
         self.outcomes = set()
         self.n = 0
         self.samples = []
@@ -219,10 +218,9 @@ class Reread(object):
                     unexplained.append('added/removed')
                 for nm in sorted(set(exp[1]) ^ set(got[1])):
                     d = info.get(nm, [])
-                    if nm in got[1] and d == ['pool_events:order']:
-                        self.known[KNOWN_EVORDER] += 1
-                    else:
-                        unexplained.append('%s: differences %r' % (nm, d))
+                    # (the same set of event types in another order is not a difference: a pool
+                    #  reported for 'pool_events:order' alone lands here as unexplained)
+                    unexplained.append('%s: differences %r' % (nm, d))
                 if not unexplained and [x for x in exp[1] if x in got[1]] != [x for x in got[1] if x in exp[1]]:
                     unexplained.append('order of changed')
                 if unexplained:
@@ -368,6 +366,31 @@ def run_reread(chk, wd):
             mk = lambda es: [('eventlistener:a', [('command', '/bin/cat'), ('events', ','.join(es))]), c15_gen.BYSTANDER]
             rr.case(mk(perms[0]), mk(pm), 'single:listener:events-order:%s' % ','.join(pm), target='a', expect_target='same')
             chk.dist('single:events')
+    # ... and the same under other hash seeds (set iteration order), each in a process of its own
+    import subprocess
+    seeds = [0, 1, 2, 3, chk.rng.randrange(4, 4000000)] + ([] if quick else list(range(10, 30)))
+    procs = []
+    for sd in seeds:
+        env = vlib.impl_env()
+        env['PYTHONHASHSEED'] = str(sd)
+        procs.append((sd, subprocess.Popen([vlib.PY, os.path.join(vlib.VERIF, 'harness', 'c15_evorder.py'),
+                                            os.path.join(wd, 'ev%d' % sd), '24' if quick else '120'],
+                                           env=env, stdout=subprocess.PIPE, stderr=subprocess.PIPE)))
+    for sd, pr in procs:
+        o, e = pr.communicate(timeout=600)
+        try:
+            res = json.loads(o.decode().strip().split('\n')[-1])
+        except Exception:
+            chk.violation({'kind': 'events-order run under PYTHONHASHSEED=%d did not complete' % sd,
+                           'stderr': e.decode('utf-8', 'replace')[-2000:]}, nofail=True)
+            continue
+        rr.n += res['runs']
+        chk.dist('events-order:hashseed-runs', res['runs'])
+        for f in res['fails'][:2]:
+            f['kind'] = ('reread reports an eventlistener pool as changed although only the order of events= changed '
+                         '(PYTHONHASHSEED=%s)' % f['hashseed'])
+            f['label'] = 'events-order'
+            rr.violation(f)
     # random pairs
     nrand = 400 if quick else 6000
     for i in range(nrand):
@@ -431,10 +454,6 @@ def finish_reread(chk, rr, results):
 
 
 def report_known(chk, known):
-    if known.get(KNOWN_EVORDER):
-        chk.known_finding(KNOWN_EVORDER, 'an [eventlistener:x] whose events= line lists the same event types in another order '
-                          'can be reported as changed (pool_events is a list in set-iteration order); %d such rereads '
-                          'explored, all agree with the model' % known[KNOWN_EVORDER])
     if known.get(KNOWN_DUP):
         chk.known_finding(KNOWN_DUP, 'two sections of different kinds defining the same group name are accepted by the '
                           'reader; only one can be active, reread of the unchanged file keeps reporting the name; '
@@ -674,6 +693,14 @@ class Update(object):
                 self.violation(replay)
             return
         added, changed, removed = reload_ans[1][0]
+        # file-level expectation of the scenario: a section left as it was (or whose events= line
+        # was only reordered) is not reported, so update leaves the group alone
+        for g in sc['groups']:
+            if g['fate'] == 'keep' and g['name'] in changed + removed:
+                replay.update(kind='reread reported (and update would restart) a group whose section did not change'
+                              + (' except for the order of events=' if g.get('reorder') else ''), group=g['name'],
+                              reread=[added, changed, removed])
+                self.violation(replay)
         valid = set(sc['args'])
         if 'all' in valid:
             valid = set()
